@@ -3,9 +3,15 @@
    an IBC packet whose follow-up fails) the state afterwards is exactly the designated outcome of that
    failure and contains nothing written by the failed sub-step. *)
 From Coq Require Import ZArith List Bool.
-From FxV Require Import model.M_Cache proofs.P_Cache.
+From FxV Require Import model.M_Cache model.M_CacheShape proofs.P_Cache.
 Import ListNotations.
 Open Scope Z_scope.
+
+(* tie to the sources (translator harness/gen_c18): position of every cache branch, which calls get the branch and
+   which the outer context, under which test the branch is written — as transcribed in M_Cache.v *)
+Theorem C18_source_shape : source_shapes_ok = true.
+Proof. exact source_shapes. Qed.
+Print Assumptions C18_source_shape.
 
 (* observed event: ANY handler behaviour (any writes before the error) *)
 Theorem C18_attestation_failed_handler :
